@@ -130,7 +130,7 @@ def records(ck, rnd, circuits, ms, per_circuit_opts=None):
                 opts = rnd.sample(opts, 2)
             for reuse, strip in opts:
                 for use_cb in ((False, True) if m == 2 else (False,)):
-                    cyc = (1, 2, 3, 4) if (m in (2, 4) and any(x for x in st['seq']) and rnd.random() < 0.6) else ()
+                    cyc = (1, 2, 3, 4) if (m in (2, 4) and rnd.random() < (0.6 if any(x for x in st['seq']) else 0.15)) else ()      # (also circuits without any state element)
                     wide = None
                     if ci > 13 and ci % 9 == 0:
                         # scale: batches beyond 8- and 16-bit lane counts; the recorded lanes sit at and around the boundaries
